@@ -231,6 +231,15 @@ def run_pool(prop, verif_seed, tier, nfam, nworkers, wall_cap, twice_every=16):
     known = load_known() if stop_first else {}
     while conns:
         ready = wait(list(conns), timeout=1.0)
+        if not ready:
+            # a dead worker whose pipe is still held open by a process it
+            # leaked (no EOF will ever arrive): account for it here
+            for r, w in list(conns.items()):
+                if not procs[w].is_alive() and not r.poll(0):
+                    if w not in finished:
+                        errors.append('worker %d died with exit code %s (a wedged run '
+                                      'killed by the watchdog?)' % (w, procs[w].exitcode))
+                    del conns[r]
         for r in ready:
             w = conns[r]
             try:
@@ -240,6 +249,9 @@ def run_pool(prop, verif_seed, tier, nfam, nworkers, wall_cap, twice_every=16):
                     procs[w].join(timeout=5)
                     errors.append('worker %d died with exit code %s (a wedged run '
                                   'killed by the watchdog?)' % (w, procs[w].exitcode))
+                    # no verdict can come out of this run: stop handing out work
+                    with counter.get_lock():
+                        counter.value = max(counter.value, nfam)
                 del conns[r]
                 continue
             if kind == 'done':
